@@ -1162,6 +1162,98 @@ fn random_glyph(rng: &mut Rng, axis_count: usize, big: bool) -> GlyphIn {
     GlyphIn { coords, ends, tuples }
 }
 
+/// a glyph whose tuples are SPARSE (explicit point numbers) and whose required deltas mix word-sized values with
+/// zeros / byte-sized values / further word runs (also > 64 words in a row), so that in the x or y delta array a word
+/// run is followed by another run. Optional deltas are the rounded exact inference from the required ones (tolerance 1).
+fn sparse_word_glyph(rng: &mut Rng, axis_count: usize, long_run: bool, extreme: bool) -> GlyphIn {
+    let n = if long_run { rng.range(170, 220) } else { rng.range(24, 60) } as usize;
+    let ncont = if long_run { 1 } else { rng.range(1, 2) as usize };
+    let mut coords: Vec<(i64, i64)> = vec![];
+    let mut ends = vec![];
+    let (mut x, mut y) = (rng.range(-200, 200), rng.range(-200, 200));
+    for c in 0..ncont {
+        let m = if c + 1 == ncont { n - coords.len() } else { n / 2 };
+        for _ in 0..m {
+            match rng.below(3) {
+                0 => x += rng.range(-60, 60),
+                1 => y += rng.range(-60, 60),
+                _ => {
+                    x += rng.range(-30, 30);
+                    y += rng.range(-30, 30)
+                }
+            }
+            x = x.clamp(-6000, 6000);
+            y = y.clamp(-6000, 6000);
+            coords.push((x, y));
+        }
+        ends.push(coords.len() - 1);
+    }
+    let npts = coords.len();
+    coords.extend([(0, 0), (rng.range(200, 900), 0), (0, 0), (0, 0)]);
+    for k in 0..4 {
+        ends.push(npts + k);
+    }
+    let ntup = rng.range(1, 3) as usize;
+    let mut tuples: Vec<TupleIn> = vec![];
+    let mut prev_req: Option<Vec<usize>> = None;
+    for _ in 0..ntup {
+        let tents: Vec<_> = loop {
+            let t: Vec<_> = (0..axis_count).map(|_| random_tent(rng)).collect();
+            if t.iter().any(|x| x.0 != 0) {
+                break t;
+            }
+        };
+        // required point set: shared with the previous tuple half of the time
+        let req: Vec<usize> = match (&prev_req, rng.chance(1, 2)) {
+            (Some(r), true) => r.clone(),
+            _ => {
+                let k = if long_run { rng.range(66, 80) } else { rng.range(4, 12) } as usize;
+                let mut idx: Vec<usize> = (0..npts).collect();
+                rng.shuffle(&mut idx);
+                let mut r: Vec<usize> = idx.into_iter().take(k).collect();
+                if rng.chance(1, 2) {
+                    r.push(npts + 1); // advance phantom
+                }
+                r.sort();
+                r
+            }
+        };
+        prev_req = Some(req.clone());
+        // values along the required points: word, then zero / byte / word patterns
+        let pat = rng.below(5);
+        let mut retained: Vec<Option<(i64, i64)>> = vec![None; npts + 4];
+        for (j, &i) in req.iter().enumerate() {
+            let word = |rng: &mut Rng| if rng.chance(1, 2) { rng.range(128, 3000) } else { rng.range(-3000, -129) };
+            let small = |rng: &mut Rng| rng.range(-100, 100);
+            let v = |rng: &mut Rng, j: usize, phase: usize| -> i64 {
+                match pat {
+                    0 => if (j + phase) % 4 < 2 { word(rng) } else { 0 },                 // words then zero pairs
+                    1 => if (j + phase) % 5 < 2 { word(rng) } else { small(rng) },          // words then bytes
+                    2 => word(rng),                                                         // all words (cap 64 forces a second run)
+                    3 => if j < req.len() / 2 { word(rng) } else { 0 },                     // words then a zero run
+                    _ => {
+                        if extreme {
+                            *rng.pick(&[0, 0, 1, -1, 127, 128, -128, -129, 300, -300, 32767, -32768])
+                        } else {
+                            // (drawn glyphs: keep point + delta far inside the 16.16 range of skrifa's delta arithmetic)
+                            *rng.pick(&[0, 0, 1, -1, 127, 128, -128, -129, 300, -300, 2500, -2500])
+                        }
+                    }
+                }
+            };
+            retained[i] = Some((v(rng, j, 0), v(rng, j, 1)));
+        }
+        let inf = infer_all(&coords, &retained, &ends);
+        let round = |f: Fr| -> i64 { (2 * f.0 + f.1).div_euclid(2 * f.1) as i64 };
+        let raw: Vec<(i64, i64)> = (0..npts + 4).map(|i| retained[i].unwrap_or((round(inf[i].0).clamp(-32768, 32767), round(inf[i].1).clamp(-32768, 32767)))).collect();
+        let deltas: Vec<GlyphDelta> = (0..npts + 4)
+            .map(|i| if retained[i].is_some() { GlyphDelta::required(raw[i].0 as i16, raw[i].1 as i16) } else { GlyphDelta::optional(raw[i].0 as i16, raw[i].1 as i16) })
+            .collect();
+        tuples.push(TupleIn { tents, raw, deltas, tol: (1, 1) });
+    }
+    GlyphIn { coords, ends, tuples }
+}
+
 /// read back with read-fonts and compare with the inputs (the property's wording)
 fn gvar_oracle(glyphs: &[GlyphIn], axis_count: u16, bytes: &[u8], st: &mut Stats, key: &str) {
     let gvar = match read_fonts::tables::gvar::Gvar::read(FontData::new(bytes)) {
@@ -1228,6 +1320,42 @@ fn gvar_oracle(glyphs: &[GlyphIn], axis_count: u16, bytes: &[u8], st: &mut Stats
             }
             let all = t.has_deltas_for_all_points();
             st.count(if all { "gvar.tuple_all_points" } else { "gvar.tuple_sparse" });
+            // the fast read paths skrifa uses (accumulate_dense_deltas / accumulate_sparse_deltas), scalar 1.0 and fractional
+            {
+                use read_fonts::tables::glyf::{PointFlags, PointMarker};
+                use read_fonts::types::{Fixed, Point as RPoint};
+                for scalar in [Fixed::ONE, Fixed::from_bits(0x5EB8), Fixed::from_bits(-0x1_8000)] {
+                    let mut acc = vec![RPoint::<Fixed>::default(); n];
+                    let mut flags = vec![PointFlags::default(); n];
+                    let t2 = t.clone();
+                    let res = catch(std::panic::AssertUnwindSafe(|| {
+                        if all {
+                            t2.accumulate_dense_deltas(&mut acc, scalar).map_err(|e| format!("{e}"))
+                        } else {
+                            t2.accumulate_sparse_deltas(&mut acc, &mut flags, scalar).map_err(|e| format!("{e}"))
+                        }
+                    }));
+                    st.count(if all { "gvar.fast_dense_reads" } else { "gvar.fast_sparse_reads" });
+                    if !matches!(res, Ok(Ok(()))) {
+                        st.oracle_failure(json!({"key": format!("{}:glyph{}:tuple{}:fastpath", key, gid, ti), "what": "fast delta accumulation fails", "res": format!("{:?}", res)}));
+                        continue;
+                    }
+                    let mul = |v: i16| if scalar == Fixed::ONE { Fixed::from_i32(v as i32) } else { Fixed::from_i32(v as i32) * scalar };
+                    for i in 0..n {
+                        let din = tin.deltas[i];
+                        let stored = all || din.required;
+                        let want = if stored { (mul(din.x), mul(din.y)) } else { (Fixed::ZERO, Fixed::ZERO) };
+                        let flag = flags[i].has_marker(PointMarker::HAS_DELTA);
+                        if (acc[i].x, acc[i].y) != want || (!all && flag != din.required) {
+                            st.oracle_failure(json!({"key": format!("{}:glyph{}:tuple{}:fastpath", key, gid, ti),
+                                "what": "fast path (accumulate_*_deltas) disagrees with the builder input", "dense": all, "point": i,
+                                "scalar_bits": scalar.to_bits(), "got": [acc[i].x.to_bits(), acc[i].y.to_bits()], "want": [want.0.to_bits(), want.1.to_bits()],
+                                "has_delta_flag": flag, "required": din.required}));
+                            break;
+                        }
+                    }
+                }
+            }
             let none_required = tin.deltas.iter().all(|d| !d.required);
             if all && retained.iter().all(|r| r.is_none()) && n > 0 {
                 // "all points" header but no delta data: only legitimate meaning is all-zero deltas
@@ -1384,9 +1512,14 @@ fn gvar_part(rng: &mut Rng, st: &mut Stats, cw: &mut CaseWriter, thorough: bool)
     for fi in 0..nfonts {
         let axis_count = rng.range(1, 3) as usize;
         let nglyphs = rng.range(1, 5) as usize;
-        let glyphs: Vec<GlyphIn> = (0..nglyphs).map(|_| random_glyph(rng, axis_count, false)).collect();
+        let glyphs: Vec<GlyphIn> = (0..nglyphs)
+            .map(|gi| if fi % 3 == 1 { sparse_word_glyph(rng, axis_count, fi % 12 == 1 && gi == 0, true) } else { random_glyph(rng, axis_count, false) })
+            .collect();
+        if fi % 3 == 1 {
+            st.count("gvar.sparse_word_run_fonts");
+        }
         let key = format!("gvar:seed-font-{}", fi);
-        process_gvar_font(&glyphs, axis_count, &key, st, cw, 40);
+        process_gvar_font(&glyphs, axis_count, &key, st, cw, 64);
     }
     // long offsets: enough glyph data to exceed 2 * 65535 bytes
     {
@@ -1631,7 +1764,7 @@ mod c10_draw {
             let nglyphs = rng.range(1, 3) as usize;
             let mut glyphs: Vec<GlyphIn> = vec![];
             while glyphs.len() < nglyphs {
-                let g = random_glyph(rng, axis_count, false);
+                let g = if fi % 3 == 1 { sparse_word_glyph(rng, axis_count, fi % 12 == 1, false) } else { random_glyph(rng, axis_count, false) };
                 // contours of at least 3 points, coordinates and moved points inside i16
                 let mut start = 0;
                 let mut ok = true;
@@ -1731,6 +1864,9 @@ mod c10_draw {
                     let mut slack = 0.5 + 0.02;
                     for t in &g.tuples {
                         if let Some(s) = tent_scalar(&t.tents, &loc) {
+                            // 16.16 arithmetic: the scalar is rounded per axis (<= 2^-17 each, relative to the delta) and so is the product
+                            let maxd = t.deltas.iter().map(|d| (d.x as f64).abs().max((d.y as f64).abs())).fold(0.0, f64::max);
+                            slack += maxd * (axis_count as f64 + 1.0) / 65536.0;
                             if !t.deltas.iter().all(|d| d.required) {
                                 slack += to_f64(s).abs() * (t.tol.0 as f64 / t.tol.1 as f64);
                             }
